@@ -20,7 +20,7 @@
 EXTENDS KS, Json, SequencesExt
 
 Apis  == {"c", "cpp"}
-Seeds == <<1, 2, 1000, 2147483647, Add(Mul(65536, 65536), 5)>>      \* the last one is 2^32 + 5
+Seeds == <<1, 2, 1000, 2147483647, Add(Mul(65536, 65536), 5), 0>>   \* ..., 2^32 + 5, and 0 (a seed like any other)
 DirArgs == {"none", "rel"}                                          \* no directory / a multi-character relative directory
 
 Args == [api : Apis, nullflag : BOOLEAN, dir : DirArgs, seed : 1..Len(Seeds)]
@@ -113,7 +113,7 @@ DocSph == World(Spherical("begin segment"), KSFeatures(TRUE)
                 \o <<[Rnd EXCEPT !["coordinates"] = RectU(TRUE, 1100, 0, 1500, 500)]>>)
           @@ ("cross section" :> <<XY(TRUE, 0, 250), XY(TRUE, 1000, 250)>>)
 LDocs == {"capi_cart", "capi_sph"}
-LSeeds == {1, 4, 5}                                      \* indices into Seeds: 1, 2^31 - 1, 2^32 + 5
+LSeeds == {1, 4, 5, 6}                                   \* indices into Seeds: 1, 2^31 - 1, 2^32 + 5, 0
 LProbes == {2, 4, 7, 8}                                  \* continent + mantle + plume, slab, surface, random plate
 LPoint(doc, i, d) ==
   LET pr == ProbesKm[i] IN
